@@ -299,6 +299,8 @@ func runC18(r *Run, rng *Rng, thorough bool) {
 			r.Fail("verify-own-key", fmt.Sprintf("freshly decoded token does not verify under its key: %s", v1[k.id].res))
 		}
 	}
+	// extension claims of every kind (slices, pointers, a raw CBOR item, two levels of embedding): no reference to the buffer
+	richExt(r, rng, 300, map[string]string{"buffer": "no-buffer-reference"})
 }
 
 // fmtErrText: the full error text (repeatability is about getting the same result, message included)
